@@ -61,6 +61,19 @@ def prove_field_contracts(rep, cfg, W, lanes=None, seed=0):
                         '%s(%s) -> %s%s, c = %s (mod p)' % (short, pre, 's:' if c['out'][2] else '', c['out'][1], c['op']))
             if ok and lane == 0:
                 rep.sample(dict(config=cfg, kernel=short, pre=pre, post=c['out'][1], cells=r.cells, source=c['src']))
+        # in place: the output register is also an operand (st = st + c is how every caller accumulates), and both
+        # operands the same register; the contract must hold with the operand read before the result is written.
+        # Aliasing does not depend on the lane: one lane.
+        ins = c['ins']
+        hyps = [({i: 0}, None, '%s=c' % ins[i][0]) for i in range(len(ins))]
+        if len(ins) == 2 and ins[0][1:] == ins[1][1:]:
+            hyps.append((None, {1: 0}, '%s=%s' % (ins[1][0], ins[0][0])))
+            hyps.append(({0: 0}, {1: 0}, '%s=%s=c' % (ins[0][0], ins[1][0])))
+        for al, al_in, label in hyps:
+            spec = lambda A, op=c['op']: kprove.spec_poly(op, A)
+            r = kprove.prove(mod, name, ins, [(c['out'][1], c['out'][2])], spec, W=W, lanes=[0], seed=seed, alias=al, alias_in=al_in)
+            record(rep, 'contract:%s/%s in place %s' % (cfg, short, label), 'kernel-contract', site, r,
+                   '%s with %s (same register)' % (short, label))
     for c in contracts.INT:
         if c['W'] != W:
             continue
@@ -81,6 +94,14 @@ def prove_field_contracts(rep, cfg, W, lanes=None, seed=0):
             if r.cells > 1:
                 rep.incomplete('nowrap:%s/%s lane %d' % (cfg, short, lane), 'kernel-exact-product', site,
                                'an intermediate addition may wrap (%d cells)' % r.cells)
+    n += prove_dot8(rep, cfg, W, lanes=lanes, seed=seed)
+    return n
+
+
+def prove_dot8(rep, cfg, W, lanes=None, seed=0):
+    """the 8-bit-coefficient sparse kernels (raw adds of 72-bit products inside): kernel mode, every lane"""
+    mod = front.module(cfg, sroa=True)
+    n = 0
     for c in contracts.DOT8:
         if c['W'] != W:
             continue
